@@ -246,6 +246,7 @@ func (e *Exec) call(f *frame, st *State, c *ssa.CallCommon, ins ssa.Instruction,
 	}
 	ci := e.resolveCallee(f, c)
 	sig := c.Signature()
+	e.lockOrder(f, st, ci, c, args, ins)
 	switch ci.kind {
 	case ckBuiltin:
 		return e.builtin(f, st, ci.name, c, args, ins)
@@ -1218,4 +1219,125 @@ func subRoot(t string) string {
 		}
 		t = rest
 	}
+}
+
+
+// ---- lock discipline (C16): no lock is acquired, and no function that may acquire one is called,
+// while a lock is held — so locks are never nested and lock-order deadlocks cannot occur.
+func isLockAcquire(name string) bool {
+	switch name {
+	case "(*sync.Mutex).Lock", "(*sync.RWMutex).Lock", "(*sync.RWMutex).RLock":
+		return true
+	}
+	return false
+}
+
+func (e *Exec) lockOrder(f *frame, st *State, ci calleeInfo, c *ssa.CallCommon, args []Val, ins ssa.Instruction) {
+	if f.mode == "spec" || ci.kind == ckBuiltin {
+		return
+	}
+	e.regHeap("G.$held", "(Array Int Bool)")
+	held := e.get(st, "G.$held")
+	if ci.fn != nil && isLockAcquire(ci.fn.String()) && len(args) > 0 {
+		e.oblig(st, "lockorder", "acquire", eq(held, noLocks), "a lock is acquired only while no lock is held (no nesting)", e.position(ins.Pos()))
+		return
+	}
+	if ci.kind == ckInline {
+		return // the callee's body is executed here: its own acquisitions are checked in place
+	}
+	may, why := e.W.mayLockCall(e.P, f.fn, c)
+	if may {
+		e.oblig(st, "lockorder", "call("+ci.name+")", eq(held, noLocks), "a function that may acquire a lock ("+why+") is called only while no lock is held", e.position(ins.Pos()))
+	}
+}
+
+// mayLockCall: may the call acquire a sync lock? Static callees are followed through the repository's
+// code; interface calls are resolved by method name over the repository's types; calls of function
+// values of unknown origin are assumed to. Code outside the repository is assumed not to call back
+// into it (A-EXT-NOLOCK).
+func (w *World) mayLockCall(p *Program, caller *ssa.Function, c *ssa.CallCommon) (bool, string) {
+	if w.mayLock == nil {
+		w.mayLock = map[*ssa.Function]int{}
+	}
+	if c.IsInvoke() {
+		name := c.Method.Name()
+		for _, fn := range p.allRepoFuncs() {
+			if fn.Signature.Recv() != nil && fn.Name() == name && types.Implements(fn.Signature.Recv().Type(), c.Value.Type().Underlying().(*types.Interface)) {
+				if w.mayLockFn(p, fn) {
+					return true, displayName(fn)
+				}
+			}
+		}
+		return false, ""
+	}
+	switch v := c.Value.(type) {
+	case *ssa.Function:
+		if isLockAcquire(v.String()) {
+			return true, v.String()
+		}
+		if w.mayLockFn(p, v) {
+			return true, displayName(v)
+		}
+		return false, ""
+	case *ssa.MakeClosure:
+		if fn, ok := v.Fn.(*ssa.Function); ok && w.mayLockFn(p, fn) {
+			return true, displayName(fn)
+		}
+		return false, ""
+	case *ssa.Builtin:
+		return false, ""
+	}
+	return true, "function value of unknown origin"
+}
+
+func (w *World) mayLockFn(p *Program, fn *ssa.Function) bool {
+	switch w.mayLock[fn] {
+	case 1:
+		return false // in progress or known not to
+	case 2:
+		return true
+	}
+	w.mayLock[fn] = 1
+	if fn.Blocks == nil || !inRepo(p, fn) {
+		return false
+	}
+	if con := w.contractFor(fn); con != nil && con.Flags["lockfree"] {
+		// declared (and, for an abstracted body, assumed) not to acquire any lock of the service
+		return false
+	}
+	res := false
+	for _, b := range fn.Blocks {
+		for _, ins := range b.Instrs {
+			var c *ssa.CallCommon
+			switch x := ins.(type) {
+			case *ssa.Call:
+				c = x.Common()
+			case *ssa.Defer:
+				c = x.Common()
+			case *ssa.Go:
+				continue // runs in another goroutine: not nested in this one's locks
+			}
+			if c == nil {
+				continue
+			}
+			if may, _ := w.mayLockCall(p, fn, c); may {
+				res = true
+			}
+		}
+	}
+	for _, an := range fn.AnonFuncs {
+		_ = an
+	}
+	if res {
+		w.mayLock[fn] = 2
+	}
+	return res
+}
+
+func inRepo(p *Program, fn *ssa.Function) bool {
+	pk := fn.Pkg
+	if pk == nil && fn.Parent() != nil {
+		pk = fn.Parent().Pkg
+	}
+	return pk != nil && strings.HasPrefix(pk.Pkg.Path(), p.ModPath+"/")
 }
